@@ -159,8 +159,10 @@ def depth(e):
 # ------------------------------------------------------------------------------------------------
 # exhaustive part 1: relations
 
-INTS = [-2, -1, 0, 1, 2, 2 ** 40]
-FLOATS = ["0.0", "-0.0", "0.5", "1.0", "-1.5", "1e+300", "2.0"]
+# (with the integers next to 2**53, 2**63, 2**64 that no double represents, and the doubles next to them)
+INTS = [-2, -1, 0, 1, 2, 2 ** 40, 2 ** 53, 2 ** 53 + 1, -(2 ** 53) - 1, 2 ** 63 - 1, 2 ** 64 - 1]
+FLOATS = ["0.0", "-0.0", "0.5", "1.0", "-1.5", "1e+300", "2.0", "9007199254740992.0", "-9007199254740992.0",
+          "9.223372036854776e+18", "1.8446744073709552e+19"]
 OPERANDS = (
     [{"k": "int", "v": v} for v in INTS]
     + [{"k": "float", "v": f} for f in FLOATS]
